@@ -1705,6 +1705,17 @@ func (x *Exec) returnInstr(in *ssa.Return) {
 	if x.fc == nil {
 		return
 	}
+	if x.takesLocks() {
+		// lock balance: a function that takes a mutex gives it back on every return
+		// (an unbalanced path is a latent deadlock of everything else using the mutex)
+		if _, ok := x.enc.cs.Ghosts["lockDepth"]; ok {
+			de := x.ghostLoad("lockDepth", x.entry)
+			dr := x.ghostLoad("lockDepth", x.st)
+			x.oblige("lock", "balance", nil, true,
+				fmt.Sprintf("(forall ((m!lb Int)) (or (< (select %s m!lb) 0) (= (select %s m!lb) (select %s m!lb))))", de.T, dr.T, de.T),
+				"every mutex is released as often as it was taken", x.pos(in.Pos()))
+		}
+	}
 	var rs []Val
 	for _, r := range in.Results {
 		rs = append(rs, x.materialize(x.val(r)))
@@ -2314,4 +2325,26 @@ func (x *Exec) indexLoopVal(h *ssa.BasicBlock) (Val, bool) {
 		}
 	}
 	return Val{}, false
+}
+
+// takesLocks: the function itself calls Lock/RLock of a sync mutex.
+func (x *Exec) takesLocks() bool {
+	if x.fn == nil {
+		return false
+	}
+	for _, b := range x.fn.Blocks {
+		for _, in := range b.Instrs {
+			ci, ok := in.(ssa.CallInstruction)
+			if !ok {
+				continue
+			}
+			if f := ci.Common().StaticCallee(); f != nil {
+				switch f.String() {
+				case "(*sync.Mutex).Lock", "(*sync.RWMutex).Lock", "(*sync.RWMutex).RLock":
+					return true
+				}
+			}
+		}
+	}
+	return false
 }
